@@ -389,6 +389,20 @@ func runCheck(ck *Check, tier string, seed int64, replay string, keepEvidence bo
 		execute(false)
 	}
 
+	if !haveRes && !watchdog && replay == "" {
+		// A child that died inside harness code (not in golang.org/x/net, not on the watchdog)
+		// tells nothing about the property; such deaths have been scheduling-dependent (a
+		// testing/synctest abort), so the same cases are run once more before giving up.
+		if _, harnessOnly := crashKey(logs); harnessOnly && !strings.Contains(logs, "[build failed]") && strings.Contains(logs, "=== RUN") {
+			os.Rename(logPath, filepath.Join(outDir, "child.harness-crash.log"))
+			if raceNote != "" {
+				raceNote += "; "
+			}
+			raceNote += "a first run died inside harness code (log kept as child.harness-crash.log); the verdict comes from a second run of the same cases"
+			execute(race)
+		}
+	}
+
 	verdict := 0 // 0 held, 1 violation, 2 inconclusive
 	var lines []string
 	var inconc []string
@@ -618,6 +632,20 @@ func crashKey(logs string) (string, bool) {
 	if len(sect) > 20000 {
 		sect = sect[:20000]
 	}
+	// A panic or a fatal error is raised by one goroutine, the first one of the dump: the other
+	// stacks (TestMain waiting, parked connection loops) say nothing about who failed. A deadlock
+	// report and a race report have no such goroutine and are read whole.
+	if (strings.HasPrefix(kind, "panic:") || strings.HasPrefix(kind, "fatal:") || kind == "checkptr") && !strings.Contains(kind, "deadlock") {
+		if g := strings.Index(sect, "\ngoroutine "); g >= 0 {
+			blk := sect[g+1:]
+			if e := strings.Index(blk, "\n\n"); e >= 0 {
+				blk = blk[:e]
+			}
+			if len(frameRe.FindAllStringSubmatch(blk, -1)) > 0 || strings.Contains(kind, "synctest_bubble") {
+				sect = blk
+			}
+		}
+	}
 	ms := frameRe.FindAllStringSubmatch(sect, -1)
 	first := ""
 	nonHarness := 0
@@ -646,6 +674,11 @@ func crashKey(logs string) (string, bool) {
 	}
 	if first == "" {
 		first = "?"
+	}
+	// testing/synctest aborts the process when a bubble is misused; golang.org/x/net has no
+	// bubble-aware code, so such an abort is the harness's (or the runtime's) doing.
+	if strings.Contains(kind, "synctest_bubble") {
+		return kind + "@" + first, true
 	}
 	return kind + "@" + first, nonHarness == 0 && len(ms) > 0
 }
